@@ -276,7 +276,24 @@ def build_cases(ctx, T, g):
     d2 = layer(leaves + xleaves, g.un_rep + g.un_more, g.bin_rep + g.bin_more, True)
     sub3 = [A] + layer([A], g.un_rep, g.bin_rep, False) + [("lit", t["INT"], "1"), ("nu", t["INT"], "1", "m"), ("slit", A), ("env", "1", "name")]
     d3 = layer(sub3, g.un_rep + [t["ARROW"], t["AND"]], g.bin_rep + [t["SUB"], t["QUO"], t["AND"], t["LSS"]], True)
-    trees = d1 + xleaves + d2 + d3
+    # depth 4, targeted: every operand slot over every prefix/postfix/lambda constructor over one representative of every level
+    # (the parenthesised and unparenthesised branches of StarExpr / UnaryExpr / ErrWrapExpr / LambdaExpr print their operand
+    # separately, so a wrong context there only shows two levels down: (*(a + b)).f)
+    inner = [A] + [("bin", o, A, A) for o in g.bin_rep] + [("un", t["SUB"], A), ("star", A), ("ewd", t["QUESTION"], A, A),
+                                                          ("lam", "0", "0", "x", ":", A), ("call", A), ("ew", t["NOT"], A)]
+    mids = []
+    for x in inner:
+        mids += [("star", x), ("un", t["SUB"], x), ("un", t["NOT"], x), ("ew", t["NOT"], x), ("ewd", t["QUESTION"], x, A),
+                 ("ewd", t["QUESTION"], A, x), ("lam", "0", "0", "x", ":", x), ("lam", "1", "1", "x", ":", x, A)]
+    d4 = []
+    for m in mids:
+        d4 += [("sel", m, "f"), ("idx", m, A), ("idx", A, m), ("call", m), ("call", m, A), ("call", A, m), ("calle", m, A),
+               ("ew", t["QUESTION"], m), ("ewd", t["QUESTION"], m, A), ("ewd", t["QUESTION"], A, m), ("un", t["SUB"], m), ("star", m),
+               ("slice", m, A, "_", "_"), ("ta", m, ("id", "T")), ("idxl", m, ("id", "T"), ("id", "U")),
+               ("lam", "0", "0", "x", ":", m)]
+        for o in g.bin_rep:
+            d4 += [("bin", o, m, A), ("bin", o, A, m)]
+    trees = d1 + xleaves + d2 + d3 + d4
     cases = []
     seen = set()
     for n in trees:
@@ -489,7 +506,8 @@ def run(ctx):
     ctx.cover(evaluations=len(cases), distinct_nontrivial=len(set(s for c, n, s in cases if depth(n) >= 2)),
               samples=[{"tree": cases[i][2], "impl": il[i]} for i in (5, len(cases) // 3, len(cases) // 2, len(cases) - 7)],
               rule="direct oracle + printer correspondence: every tree of depth<=2 over all binary/unary operators and every XGo expression kind, "
-                   "depth 3 over one operator per precedence level (+ - / & <) with a single leaf (%d trees, exhaustive, seed-independent); "
+                   "depth 3 over one operator per precedence level (+ - / & <) with a single leaf, depth 4 as operand-slot x prefix/postfix/lambda "
+                   "constructor x one representative per level (%d trees, exhaustive, seed-independent); "
                    "%d of them are inside the Coq model and compared token by token; non-trivial = depth>=2; failing trees: %d "
                    "(all keyed by the first operand position violating posok)" % (len(cases), in_model, nfail),
               exhaustive_part=len(cases) + nex, node_kind_histogram=dict(sorted(hist.items(), key=lambda kv: -kv[1])),
